@@ -6,6 +6,23 @@ import tensorflow as tf
 from tf_pwa.data import LazyCall, data_split
 
 
+def _restore_used_chains(f):
+    """Run f and put back the decay chains that were active before (also on exceptions)."""
+
+    @functools.wraps(f)
+    def g(amp, *args, **kwargs):
+        decay_group = getattr(getattr(amp, "amp", amp), "decay_group", None)
+        if decay_group is None:
+            return f(amp, *args, **kwargs)
+        old_chains = list(decay_group.chains_idx)
+        try:
+            return f(amp, *args, **kwargs)
+        finally:
+            decay_group.set_used_chains(old_chains)
+
+    return g
+
+
 def eval_integral(
     f, data, var, weight=None, args=(), no_grad=False, kwargs=None
 ):
@@ -56,6 +73,7 @@ class FitFractions:
             for data_i in data_split(mcdata, batch):
                 self.append_int(data_i, *args, no_grad=no_grad, **kwargs)
 
+    @_restore_used_chains
     def append_int(self, mcdata, *args, weight=None, no_grad=False, **kwargs):
         # print(data, data_shape(data))
         if isinstance(mcdata, LazyCall):
@@ -175,6 +193,7 @@ def nll_grad(f, var, args=(), kwargs=None, options=None):
     return f_w
 
 
+@_restore_used_chains
 def cal_fitfractions(amp, mcdata, res=None, batch=None, args=(), kwargs=None):
     r"""
     defination:
@@ -258,6 +277,7 @@ def cal_fitfractions(amp, mcdata, res=None, batch=None, args=(), kwargs=None):
     return fitFrac, err_fitFrac
 
 
+@_restore_used_chains
 def cal_fitfractions_no_grad(
     amp, mcdata, res=None, batch=None, args=(), kwargs=None
 ):
